@@ -164,6 +164,12 @@ def cov_view_at(cov, positions):
     return {"table": [t for t in v["table"] if t[0] in keep], "indels": [i for i in v["indels"] if i[0][0] in keep]}
 
 
+def canon_struct(gene, counter):
+    """a structure with the whole-gene deletion left implicit (the copy-number stage may report `1x*1` for `*1 / deletion`)"""
+    dele = gene.deletion_allele()
+    return collections.Counter({k: v for k, v in dict(counter).items() if k != dele and v})
+
+
 def premise_requests(gene, gdesc, copies, planted_struct, stage_calls):
     """driver requests deciding the hypotheses of the C01 theorems on the real stage inputs"""
     import c04
@@ -172,22 +178,27 @@ def premise_requests(gene, gdesc, copies, planted_struct, stage_calls):
     planted_major = collections.Counter(m for m, _ in copies)
     planted_minor = collections.Counter((m, mi) for m, mi in copies)
     for call in stage_calls["major"]:
-        if collections.Counter(call["cn"].solution) != planted_struct:
+        if canon_struct(gene, call["cn"].solution) != canon_struct(gene, planted_struct):
             continue
         cov, prof = call["cov"], call["cov"].profile
         pos = {p for p, _ in gene.mutations}
         gview = gview or views.gene_view(gene)
+        dele = gene.deletion_allele()
+        # deletion left implicit by the copy-number stage: no allele is called for it
+        pm = planted_major if (dele is None or dict(call["cn"].solution).get(dele)) else collections.Counter({a: n for a, n in planted_major.items() if a != dele})
         reqs.append(("major", {"op": "planted_major", "gene": gview, "cov": cov_view_at(cov, pos), "cn": views.cn_view(call["cn"]), "alleles": call["alleles"],
                                "major_novel": lib.frac(float(prof.major_novel)), "gap": lib.frac(float(prof.gap)),
-                               "k": [[a, n] for a, n in planted_major.items() if a in call["alleles"]]},
-                     {"filtered_out": sorted(a for a in planted_major if a not in call["alleles"]),
+                               "k": [[a, n] for a, n in pm.items() if a in call["alleles"]]},
+                     {"filtered_out": sorted(a for a in pm if a not in call["alleles"]),
                       "best": min((s.score for s in call["result"]), default=None),
-                      "found": any(collections.Counter({a.major: n for a, n in s.solution.items()}) == planted_major and not s.added for s in call["result"])}))
+                      "found": any(collections.Counter({a.major: n for a, n in s.solution.items()}) == pm and not s.added for s in call["result"])}))
     for call in stage_calls["minor"]:
         ms = call["major_sol"]
-        if collections.Counter(ms.cn_solution.solution) != planted_struct:
+        if canon_struct(gene, ms.cn_solution.solution) != canon_struct(gene, planted_struct):
             continue
-        if collections.Counter({a.major: n for a, n in ms.solution.items()}) != planted_major or ms.added:
+        dele = gene.deletion_allele()
+        pm = planted_major if (dele is None or dict(ms.cn_solution.solution).get(dele)) else collections.Counter({a: n for a, n in planted_major.items() if a != dele})
+        if collections.Counter({a.major: n for a, n in ms.solution.items()}) != pm or ms.added:
             continue
         pos = {p for p, _ in gene.mutations} | {m.pos for m in call["mutations"]}
         real = {"gene": gene, "gid": None}
@@ -195,7 +206,7 @@ def premise_requests(gene, gdesc, copies, planted_struct, stage_calls):
         w["gene"] = views.gene_view(gene, [m.pos for m in call["mutations"]])
         w["cov"] = cov_view_at(call["cov"], pos)
         w["op"] = "planted_minor"
-        w["copies"] = [[m, mi, n] for (m, mi), n in planted_minor.items()]
+        w["copies"] = [[m, mi, n] for (m, mi), n in planted_minor.items() if m in pm]
         reqs.append(("minor", w, {"best": min((s.score for s in call["result"]), default=None)}))
     return reqs
 
@@ -315,6 +326,7 @@ def run_desc(desc, d, k):
     def wrapped(*a, **kw):
         res = orig(*a, **kw)
         seen["cn"] = res
+        seen["cov"] = next((x for x in list(a) + list(kw.values()) if hasattr(x, "region_coverage")), None)
         return res
 
     G.cn.estimate_cn = wrapped
@@ -348,7 +360,7 @@ def run_desc(desc, d, k):
     planted_struct = collections.Counter(gene.alleles[m].cn_config for m, _ in copies)
     cn_sols = seen.get("cn") or []
     best_cn = min((c.score for c in cn_sols), default=None)
-    planted_cn_optimal = any(collections.Counter(c.solution) == planted_struct and c.score <= best_cn + 1e-6 for c in cn_sols)
+    planted_cn_optimal = any(canon_struct(gene, c.solution) == canon_struct(gene, planted_struct) and c.score <= best_cn + 1e-6 for c in cn_sols)
     planted_major = collections.Counter(m for m, _ in copies)
     pv = planted_variants(gene, copies)
     why = []
@@ -361,14 +373,30 @@ def run_desc(desc, d, k):
         return gene[m[0] - 1] == gene[m[0] + n - 1]
     repeat_del = any(left_shiftable(m) for mj, mi in copies for m in sim.copy_variants(gene, mj, mi) if gene.has_coverage(mj, m[0]))
     tag = ":close_indels" if close else ":deletion_in_repeat" if repeat_del else ""
+    # "the planted structure is an optimal explanation of the region depths", independently of what the copy-number stage
+    # answers: when every region depth is within a quarter copy of the planted structure's copy number, a best structure
+    # must have that copy-number vector (the planted structure itself or one indistinguishable from it)
+    if err is None and not planted_cn_optimal and seen.get("cov") is not None and cn_sols:
+        from aldy.solutions import CNSolution
+        try:
+            pvec = CNSolution(gene, 0, list(planted_struct.elements())).region_cn
+            fit = max(abs(seen["cov"].region_coverage(gi, rg) - pvec[gi][rg]) for gi, g_ in enumerate(gene.regions) for rg in g_ if rg in gene.unique_regions or True)
+            same_vec = (not gene.do_copy_number) or any(c.score <= best_cn + 1e-6 and all(abs(c.region_cn[gi][rg] - pvec[gi][rg]) < 1e-9 for gi, g_ in enumerate(gene.regions) for rg in g_) for c in cn_sols)
+        except Exception:
+            fit, same_vec = None, True
+        if fit is not None and fit < 0.25 and not same_vec:
+            why.append(("c01:planted_structure_not_called", f"every region depth is within {fit:.2f} copies of the planted structure {dict(planted_struct)} but the best structures are "
+                        f"{[dict(collections.Counter(c.solution)) for c in cn_sols if c.score <= best_cn + 1e-6][:3]}"))
     if err is not None:
         why.append(("c01:error", f"genotype() fails on an error-free planted sample: {err}"))
     elif planted_cn_optimal:
-        if not any(collections.Counter(a.major for a in s.solution) == planted_major for s in sols):
+        dele_ = gene.deletion_allele()
+        strip_ = lambda c: collections.Counter({k: v for k, v in c.items() if k != dele_})
+        if not any(strip_(collections.Counter(a.major for a in s.solution)) == strip_(planted_major) for s in sols):
             got = [sorted(a.major for a in s.solution) for s in sols][:3]
             why.append(("c01:planted_not_reported" + tag, f"planted alleles {sorted(planted_major.elements())} are not among the best solutions {got}"))
         for s in sols:
-            if collections.Counter(s.major_solution.cn_solution.solution) != planted_struct:
+            if canon_struct(gene, s.major_solution.cn_solution.solution) != canon_struct(gene, planted_struct):
                 continue
             cv = called_variants(gene, s)
             if cv != pv:
